@@ -290,7 +290,9 @@ def run_blocks(ctx, chk):
                 txids4 = [t.txid for t in b4.transactions]
                 # (a block that does not start at the beginning of its stream, as in a file of several blocks)
                 pre_ = bytes(rng.randrange(256) for _ in range(rng.choice([0, 8, 8, 293])))
-                st5 = BytesIO(pre_ + raw)
+                post_ = rng.choice([b'', b'', raw[:80] + b'\x00', raw if len(raw) < 100000 else raw[:81]])       # ... and another block may follow
+                ctx.count('block:stream-with-%s' % ('following-bytes' if post_ else 'nothing-after'))
+                st5 = BytesIO(pre_ + raw + post_)
                 st5.read(len(pre_))
                 # (a reader that starts at the wrong offset can loop over a garbage count for hours: a wall-clock limit far
                 #  above what a block of this size takes turns that into a reported disagreement instead of a hang)
